@@ -14,6 +14,7 @@ import (
 
 	"github.com/refraction-networking/uquic/internal/protocol"
 	"github.com/refraction-networking/uquic/internal/utils"
+	"github.com/refraction-networking/uquic/internal/verifhook"
 	"github.com/refraction-networking/uquic/internal/wire"
 	"github.com/refraction-networking/uquic/qlog"
 	"github.com/refraction-networking/uquic/qlogwriter"
@@ -343,6 +344,7 @@ func (t *Transport) doDial(
 		earlyConnChan = conn.earlyConnReady()
 	}
 
+	verifhook.Point("transport.doDial.beforeSelect")
 	select {
 	case <-ctx.Done():
 		conn.destroy(nil)
@@ -519,6 +521,7 @@ func (t *Transport) close(e error) {
 		}(handler)
 	}
 	t.mutex.Unlock() // closing connections requires releasing transport mutex
+	verifhook.Point("transport.close.beforeWait")
 	wg.Wait()
 
 	if t.Tracer != nil {
@@ -838,6 +841,7 @@ func (h *packetHandlerMap) ReplaceWithClosed(ids []protocol.ConnectionID, connCl
 	h.mutex.Unlock()
 	h.logger.Debugf("Replacing connection for connection IDs %s with a closed connection.", ids)
 
+	verifhook.Point("handlerMap.replaceWithClosed.beforeTimer")
 	time.AfterFunc(expiry, func() {
 		h.mutex.Lock()
 		for _, id := range ids {
